@@ -1,6 +1,8 @@
 """C07 -- PythonRegex agrees with Python's re.fullmatch on the documented subset."""
 import re
 
+import warnings
+warnings.filterwarnings("ignore", category=FutureWarning)
 from ..engine import Prop, Layer
 from ..gen import pyre as GP
 
@@ -33,12 +35,14 @@ class C07(Prop):
                     Layer("level2 groups (3 atoms)", lambda: self.cases(lambda: GP.level2_groups(3)), policies=nat),
                     Layer("nested groups", lambda: self.cases(GP.nested_groups), policies=nat),
                     Layer("ordered pairs of set atoms built in one process", GP.set_pairs, policies=nat),
+                    Layer("stray bracket, then a set", lambda: self.cases(GP.stray_then_set), policies=nat),
                     Layer("invalid patterns", lambda: (("bad", p) for p in GP.INVALID), policies=nat)]
         ls = [Layer("level1 atoms x quantifiers", lambda: self.cases(GP.level1), policies=nat),
               Layer("level2 binary", lambda: self.cases(GP.level2), policies=nat),
               Layer("level2 groups", lambda: self.cases(GP.level2_groups), policies=nat),
               Layer("nested groups", lambda: self.cases(GP.nested_groups), policies=nat),
               Layer("ordered pairs of set atoms built in one process", GP.set_pairs, policies=nat),
+              Layer("stray bracket, then a set", lambda: self.cases(GP.stray_then_set), policies=nat),
               Layer("invalid patterns", lambda: (("bad", p) for p in GP.INVALID), policies=nat),
               Layer("level3 pruned", lambda: self.cases(GP.level3), policies=nat)]
         return ls
